@@ -32,4 +32,30 @@ HARNESSES = {
         "bounds": "buffers of 0..=40 symbolic bytes; length field (full u16) and extended-message flag symbolic; loop-free",
         "timeout": 900, "require_stubs": ["Stub: PeerCodec :: parse_message"],
     },
+    # ---------------------------------------------------------------- C05
+    "c05_canonical_flags_table": {
+        "pkg": "rustybgp-packet", "target": "bgp::Attribute::canonical_flags", "complete": True,
+        "bounds": "all 256 attribute type codes; loop-free", "timeout": 600,
+    },
+    # ---------------------------------------------------------------- C06
+    "c06_id_alloc_unique": {
+        "pkg": "rustybgp-table", "target": "IdAllocator::alloc", "complete": False,
+        "bounds": "<= 3 existing bitmap words (192 live ids) + the pushed one, every word over its full 64-bit domain, unwind 7", "timeout": 900,
+    },
+    "c06_id_dealloc_exact": {
+        "pkg": "rustybgp-table", "target": "IdAllocator::dealloc", "complete": False,
+        "bounds": "<= 4 bitmap words (256 live ids), every word over its full 64-bit domain, unwind 7", "timeout": 900,
+    },
+    "c06_id_alloc_mustfail": {"pkg": "rustybgp-table", "target": "IdAllocator::alloc", "must_fail": True, "timeout": 600},
+    # ---------------------------------------------------------------- C16
+    "c16_ipnet_contains_v4": {
+        "pkg": "rustybgp-packet", "target": "bgp::IpNet::contains (IPv4)", "complete": True,
+        "bounds": "every IPv4 prefix without host bits, mask 0..=32, every address (32+6+32 bits); the only loop runs mask/8 <= 4 times (unwind 6, unwinding assertions on)",
+        "timeout": 900,
+    },
+    "c16_ipnet_contains_v6": {
+        "pkg": "rustybgp-packet", "target": "bgp::IpNet::contains (IPv6)", "complete": True,
+        "bounds": "every IPv6 prefix without host bits, mask 0..=128, every address; loop <= 16 iterations (unwind 18, unwinding assertions on)",
+        "timeout": 1200,
+    },
 }
